@@ -81,6 +81,10 @@ struct cuthill_mckee {
     static void get(const Matrix &A, Vector &perm) {
         const ptrdiff_t n = backend::rows(A);
 
+        // An empty matrix has the empty ordering; the code below would access
+        // perm[0], levelSet[0] and degree[0].
+        if (n == 0) return;
+
         /* The data structure used to sort and traverse the level sets:
          *
          * The current level set is currentLevelSet;
